@@ -21,6 +21,7 @@ func C04(c *core.Ctx) {
 	c.Explanation("C04: variants.GetVariantsPair (getNucsPair, getAAsPair, merge/sort/dedup) is interpreted on a bounded family of gapped (reference, query) pairs - every single-site change to A/C/G/T/N/R/gap at every position of a 12-base reference, two changes per codon, every deletion of length 1..3, one and two insertions, both-gap columns - under three annotations (one forward gene, overlapping forward + reverse genes, a joined gene), against an independent specification: the set of positions mentioned as nuc: records or inside aa: records' SNP lists equals the set of positions whose base sets are disjoint (none dropped, none invented), and the aa: records are exactly the codons whose query translation is unambiguous and differs from the reference's under the standard code on the feature's strand. The codon dictionary is checked as in C17. Position coverage: for GenBank and GFF annotations (named, unnamed, overlapping, joined, reverse) every reference position is in the intergenic list or in the position list of a region that is scanned.")
 	c13Variants(c) // in aggregate mode (with --append-snps) every reported position is still mentioned
 	c02Rows(c)     // sam variants reads the rows blockToPairwiseAlignment builds
+	c01Grouping(c) // ... from the records groupSamRecords keeps: secondary and unmapped records contribute no difference
 	checkArrivalOrderIndependence(c, "R7/reorder", "variants.WriteVariants")
 	checkSoftGapReaders(c, "R6", "pkg/variants", "pkg/sam", "pkg/gff", "pkg/genbank")
 	ev0 := newEval(c)
@@ -457,6 +458,7 @@ func C05(c *core.Ctx) {
 	if !tabs.OK {
 		return
 	}
+	c15WindowFilter(c) // an indel is listed where its position P is: a window keeps or drops it by P alone, whatever its length
 	v := runVariantsFamily(c, tabs)
 	pos := funcPos(c, "pkg/variants", "getIndelsPair")
 	c.Count("pairs_evaluated", v.n)
